@@ -112,3 +112,7 @@ var o={a:1,b:2}; for (var k in o) { delete o.b; o.c=3; } var seen=[]; for (var [
 Object.defineProperty(globalThis, 'gAcc', { get(){ delete globalThis.gAcc; return 'once'; }, configurable: true }); print(gAcc, typeof gAcc); Object.defineProperty(globalThis, 'gThrow', { get(){ throw new RangeError('g'); }, configurable: true }); try { gThrow; } catch (e) { print(e.name); } try { typeof gThrow; } catch (e) { print('typeof', e.name); } try { gThrow = 1; gThrow++; } catch (e) { print(e.name); }
 //# new-target-meta
 function NT(){ return typeof new.target; } var arrow=(function(){ return () => typeof new.target; }); print(NT(), new NT() instanceof NT, new (arrow.call({}))() === undefined) ;
+//# sort-inconsistent-comparators
+var n=0; var cmps=[function(){ return 1; }, function(){ return -1; }, function(){ return NaN; }, function(){ }, function(a,b){ n++; return n%5==0 ? a-b : undefined; }, function(a,b){ n++; return (n*7)%3-1; }, function(a,b){ return b-a+((n++)%2); }, function(a,b){ return a<b ? 1 : 1; }, function(a,b){ n++; return n%2 ? 1 : -1; }];
+var out=[]; [3,8,21,40,70,150].forEach(function(len){ cmps.forEach(function(c,ci){ var a=[]; for (var i=0;i<len;i++) a.push((i*31+6)%17); try { a.sort(c); out.push(a.length); } catch (e) { out.push(e.name); } try { var t=new Int16Array(a); t.sort(c); if (a.toSorted) a.toSorted(c); if (t.toSorted) t.toSorted(c); } catch (e) { out.push(e.name); } }); });
+print('sorted', out.length, [5,1,4].sort(function(a,b){ return a-b; }).join());
